@@ -257,6 +257,8 @@ type Prog struct {
 	Calls []CallIR `json:"calls"`
 	NObj  int      `json:"nobj"`
 	UseB  bool     `json:"use_b"`
+	// ill-typed on purpose (the malformed stream): assignability of the alternatives is not checked
+	Malformed bool `json:"malformed,omitempty"`
 	// object ids of the fixed prelude: per package the fields of T and the package variables
 }
 
